@@ -112,7 +112,7 @@ func newHistGen(t *rapid.T, w *sim.World) *histGen {
 		"ibtp-req", "ibtp-req", "ibtp-req", "ibtp-rcpt", "ibtp-rcpt", "ibtp-badidx", "ibtp-badproof",
 		"group", "gov-register-chain", "gov-register-service", "gov-vote", "gov-vote", "gov-vote", "gov-lifecycle",
 		"malformed", "malformed", "xvm", "badsig", "poor", "query",
-		"script", "script", "script", "mutated",
+		"script", "script", "script", "mutated", "mutated",
 	}
 	return g
 }
@@ -578,6 +578,16 @@ var hostileStrings = []string{
 func hostileArg(t *rapid.T, old *pb.Arg) *pb.Arg {
 	switch old.Type {
 	case pb.Arg_String:
+		if rapid.IntRange(0, 3).Draw(t, "listStr") == 0 {
+			// a comma-separated list with several illegal entries: which one a contract reports must not depend on
+			// the iteration order of the set it builds from the list
+			n := rapid.IntRange(2, 4).Draw(t, "listN")
+			var parts []string
+			for i := 0; i < n; i++ {
+				parts = append(parts, rapid.SampledFrom([]string{"zz", "yy", "0x12", "chainX", "chainY", "", "a:b:c", "0x00000000000000000000000000000000000000zz"}).Draw(t, "listE"))
+			}
+			return pb.String(strings.Join(parts, ","))
+		}
 		if rapid.IntRange(0, 12).Draw(t, "hugeStr") == 0 {
 			return pb.String(strings.Repeat("A", rapid.SampledFrom([]int{255, 256, 4096, 70000}).Draw(t, "len")))
 		}
@@ -629,6 +639,26 @@ func (g *histGen) genMutated() (pb.Transaction, string) {
 		{out, constant.TransactionMgrContractAddr, "GetStatus", []*pb.Arg{pb.String(sim.IBTPID(sim.FullID(w.BxhID, "chainA", "s1"), sim.FullID(w.BxhID, "chainB", "s1"), 1))}},
 	}
 	c := calls[rapid.IntRange(0, len(calls)-1).Draw(t, "mcall")]
+	// arguments that are parsed as comma-separated sets (permissions, contract addresses, admins)
+	listArgs := map[string][]int{"RegisterAppchain": {9}, "UpdateAppchain": {4}, "RegisterService": {6}, "UpdateService": {3}, "RegisterNode": {5}, "RegisterDapp": {4, 5}}
+	if rapid.IntRange(0, 2).Draw(t, "listCall") == 0 {
+		var withList []int
+		for i, x := range calls {
+			if len(listArgs[x.method]) > 0 {
+				withList = append(withList, i)
+			}
+		}
+		c = calls[withList[rapid.IntRange(0, len(withList)-1).Draw(t, "mlist")]]
+		la := listArgs[c.method]
+		i := la[rapid.IntRange(0, len(la)-1).Draw(t, "mlarg")]
+		n := rapid.IntRange(2, 4).Draw(t, "listN")
+		var parts []string
+		for k := 0; k < n; k++ {
+			parts = append(parts, rapid.SampledFrom([]string{"zz", "yy", "0x12", "chainX", "chainY", "", "a:b:c", "0x00000000000000000000000000000000000000zz", out.Addr.String()}).Draw(t, "listE"))
+		}
+		c.args[i] = pb.String(strings.Join(parts, ","))
+		return w.BVM(c.from, c.to, c.method, c.args...), fmt.Sprintf("mutated %s(arg%d=%q list) by %s", c.method, i, strings.Join(parts, ","), short8(c.from))
+	}
 	nm := 1
 	if rapid.IntRange(0, 4).Draw(t, "two") == 0 {
 		nm = 2
